@@ -88,9 +88,6 @@ theorem noteFor_core (e : List SStmt) (s : RSt) (u : Unit) (s1 : RSt)
 
 /-! ### names -/
 
-/-- a name a user may write: the passes generate none of these -/
-def userName (n : String) : Bool := !isDunder n && !isIfTarg n
-
 def iftargName (k : Nat) : String := "_iftarg" ++ hexDigits k
 
 theorem toList_dunder (t : String) : ("__" ++ t).toList = '_' :: '_' :: t.toList := by
